@@ -264,6 +264,39 @@ def flatten_function(fj, by_name, helpers, types, depth=0, counter=None):
             id_off = _max_id(cur) + 1
             blk_off = max(x["id"] for x in cur["blocks"]) + 1
             g = _rename(gj0, prefix, id_off, blk_off)
+            # a parameter that receives an integer constant and is never written in the helper is that constant: the
+            # helper's tests of it are decided (the expansion of find_impl(.., true) has no `false` arm)
+            cenv = {}
+            for y in b["elems"][:ei]:
+                v_ = _ceval(y, cenv)
+                if v_ is not None and isinstance(y.get("id"), int):
+                    cenv[y["id"]] = v_
+            byid = {}
+            for n_ in _nodes_of(g):
+                if isinstance(n_.get("id"), int) and n_.get("k") != "ref":
+                    byid.setdefault(n_["id"], n_)
+            written = set()
+            for n_ in _nodes_of(g):
+                if (n_.get("k") == "bin" and n_.get("op", "").endswith("=") and n_.get("op") not in ("==", "!=", "<=", ">=")) or (n_.get("k") == "un" and n_.get("op") in ("addr", "pre++", "pre--", "post++", "post--")):
+                    t_ = n_["a"][0] if n_.get("a") else None
+                    if isinstance(t_, dict) and t_.get("k") == "ref":
+                        t_ = byid.get(t_.get("id"))
+                    while isinstance(t_, dict) and t_.get("k") in ("cast", "paren") and t_.get("a"):
+                        t_ = t_["a"][0]
+                        if isinstance(t_, dict) and t_.get("k") == "ref":
+                            t_ = byid.get(t_.get("id"))
+                    if isinstance(t_, dict) and t_.get("k") == "var":
+                        written.add(t_.get("n"))
+            for p_, a_ in zip(g["params"], e.get("a", [])):
+                cv_ = _ceval(a_, cenv)
+                if cv_ is None or p_["n"] in written or not isinstance(cv_, int):
+                    continue
+                for n_ in _nodes_of(g):
+                    if n_.get("k") == "var" and n_.get("n") == p_["n"]:
+                        keep = {k_: n_[k_] for k_ in ("id", "t", "loc", "was") if k_ in n_}
+                        n_.clear()
+                        n_.update(keep)
+                        n_.update({"k": "int", "v": cv_})
             nid = [id_off + _max_id(gj0) + 1]
 
             def fresh():
@@ -315,7 +348,38 @@ def flatten_function(fj, by_name, helpers, types, depth=0, counter=None):
             cur["blocks"] = [x for x in cur["blocks"]] + [gb for gb in g["blocks"] if gb["id"] != g["exit"]] + ([cont] if still_to_cont or not has_val else [])
             changed = True
             break
+    if out is not None:
+        _prune_unreachable(out)
     return out or fj
+
+
+def _prune_unreachable(fj):
+    """after constants have been propagated into an expansion: drop the blocks no feasible edge reaches any more (a branch
+    on a literal 0 / 1 has one arm)"""
+    blocks = {b["id"]: b for b in fj["blocks"]}
+    seen, work = set(), [fj["entry"]]
+    while work:
+        x = work.pop()
+        if x in seen or x not in blocks:
+            continue
+        seen.add(x)
+        b = blocks[x]
+        succ = list(b.get("succ") or [])
+        if b.get("term") in ("if", "?:", "&&", "||") and b.get("cond") is not None and len(succ) == 2:
+            env = {}
+            for y in b["elems"]:
+                v = _ceval(y, env)
+                if v is not None and isinstance(y.get("id"), int):
+                    env[y["id"]] = v
+            cv = _ceval(b["cond"], env)
+            if cv is not None:
+                succ = [succ[0 if cv else 1]]
+        work.extend(s_ for s_ in succ if s_ is not None)
+    seen.add(fj["exit"])
+    if len(seen) < len(fj["blocks"]):
+        fj["blocks"] = [b for b in fj["blocks"] if b["id"] in seen]
+        for b in fj["blocks"]:
+            b["succ"] = [s_ if (s_ is None or s_ in seen) else None for s_ in b["succ"]]
 
 
 def flatten_unit(functions, types, globals_=None):
